@@ -94,6 +94,9 @@ impl Inst {
                     s.0 += 1;
                     if name == "rt_call" {
                         s.1 += 1;
+                        if s.1 > 3000 {
+                            panic!("runaway run_available");
+                        }
                     }
                     s.2.push(name);
                     k
@@ -105,10 +108,11 @@ impl Inst {
                 }
             })));
         }
-        f(&mut self.df);
+        let df = &mut self.df;
+        let r = catch(std::panic::AssertUnwindSafe(|| f(df)));
         verif_hooks::set_point_hook(None);
         let s = st.borrow();
-        (s.1, s.2.clone())
+        (if r.is_err() { u64::MAX } else { s.1 }, s.2.clone())
     }
 
     /// moves the tap records of ticks `from..to` into the history and renders them per tick
@@ -269,6 +273,12 @@ fn exec_line(rec: &mut Recorder, inst: &mut Option<Inst>, line: &str) {
                 let (calls, _) = i.with_hook(inj, |df| {
                     df.run_available_sync();
                 });
+                if calls == u64::MAX {
+                    rec.check(false, "run_available-does-not-become-idle", &format!("prog={} more than 3000 ticks", i.dsl));
+                    rec.line(line, "runaway");
+                    *inst = None;
+                    return;
+                }
                 let after: u64 = i.df.current_tick().into();
                 let outs = i.collect(before, after);
                 rec.check(after == before + calls && calls >= 1, "tick-counter-not-plus-one", &format!("prog={} before={} after={} closure calls={}", i.dsl, before, after, calls));
